@@ -65,7 +65,8 @@ func (j RawMessage) Value() (driver.Value, error) {
 
 func (store *Store) logsQueryBuilder(q PaginatedQueryOptions[any]) func(*bun.SelectQuery) *bun.SelectQuery {
 	return func(selectQuery *bun.SelectQuery) *bun.SelectQuery {
-		selectQuery = selectQuery.Table(LogTableName)
+		selectQuery = selectQuery.Table(LogTableName).
+			Where("ledger = ?", store.name)
 
 		if q.QueryBuilder != nil {
 			subQuery, args, err := q.QueryBuilder.Build(query.ContextFn(func(key, operator string, value any) (string, []any, error) {
